@@ -128,7 +128,7 @@ typedef unsigned long uint64_t;
 typedef int (*cmpfun)(const void *, const void *, void *);
 static unsigned char tmp[256];
 #ifdef HAVE___BUILTIN_CTZ
-#define ntz(x) __builtin_ctz((x))
+#define ntz(x) __builtin_ctzl((x))
 #else
 static const char debruijn32[32] = {0,  1,  23, 2,  29, 24, 19, 3,  30, 27, 25,
                                     11, 20, 8,  4,  13, 31, 22, 28, 18, 26, 10,
